@@ -4,7 +4,7 @@ from contracts import specs
 
 ID = "C40"
 L = "lemmas.c40."
-TARGETS = [L + "hostnames_total", L + "lookup_first_obtained_value"]
+TARGETS = [L + "hostnames_total", L + "lookup_first_obtained_value", L + "lookup_identityfile_repeated_within_a_block"]
 REPLAY = {"*": "c40.replay_config"}
 MAX_PATHS = 20000
 
@@ -25,6 +25,8 @@ def setup(E):
                params={"hostname": "str", "p1": "str", "p2": "str", "u1": "str", "u2": "str", "port2": "str",
                        "id1": "str", "id2": "str", "id3": "str"},
                requires=["id1 != id2", "id2 != id3"], raises={})
+    E.contract(L + "lookup_identityfile_repeated_within_a_block",
+               params={"hostname": "str", "p1": "str", "p2": "str", "id1": "str", "id2": "str", "id3": "str"}, raises={})
 
 CLAIMED = True
 LEVEL_TEXT = ("Proof of the structural core by lemma programs that build a configuration the way parse() does and run the "
